@@ -331,27 +331,27 @@ def projStep (p : Proj Text) : Op Text → Proj Text
 def projRun (h : List (Op Text)) : Proj Text := h.foldl projStep Proj.new
 
 
-/-! ### A fragment of the analysis itself: enumeration values (known finding
-`C13-enum-next-value-overflow`)
+/-! ### A fragment of the analysis itself: enumeration values (finding
+`C13-enum-next-value-overflow`, fixed in /repo by 0bd32a4)
 
 `collect_enum_type` (crates/trust-hir/src/db/queries/collector/types.rs) walks the values of an
 enumeration with `let mut next_value: i64 = 0`; a value with an explicit `:= expr` (folded by the
 collector's constant evaluator to an `i64`) takes that value, one without takes `next_value`, and
-after each value `next_value = value + 1` — a plain `+` on `i64`, which panics on overflow in the
-dev profile (DESIGN §5). -/
+after each value `next_value = value.saturating_add(1)` (before the fix: a plain `value + 1`, which
+panicked on overflow in the dev profile). -/
 
 def i64Max : Int := 9223372036854775807
+def i64Min : Int := -9223372036854775808
+
+/-- `i64::saturating_add(v, 1)` for an `i64` value `v`. -/
+def satSucc (v : Int) : Int := if v + 1 > i64Max then i64Max else v + 1
 
 /-- The values assigned to an enumeration whose entries are `some v` (explicit, already folded to
 an `i64`) or `none` (implicit), starting with `next_value = next`. -/
-def enumAssign : List (Option Int) → Int → Outcome (List Int)
-  | [], _ => .ok []
+def enumAssign : List (Option Int) → Int → List Int
+  | [], _ => []
   | e :: rest, next =>
     let value := e.getD next          -- `self.extract_enum_value(&child).unwrap_or(next_value)`
-    if value + 1 > i64Max then .panic          -- `next_value = value + 1` overflows
-    else
-      match enumAssign rest (value + 1) with
-      | .ok l => .ok (value :: l)
-      | .panic => .panic
+    value :: enumAssign rest (satSucc value)
 
 end TrustVerif.C13
